@@ -110,7 +110,9 @@ CumGroups(sh, axis) ==
                         IN /\ mq[axis + 1] <= mr[axis + 1]
                            /\ \A d \in 1..Len(sh) : d # axis + 1 => mq[d] = mr[d])]
 
-\* numpy.matmul on shapes s0, s1 (rank-1 operands are promoted and the added dimension removed)
+\* numpy.matmul on shapes s0, s1 (rank-1 operands are promoted and the added dimension removed).
+\* Also used for Gemm: the ONNX rules cited by Graph::gemm speak of 2-D matrices only; batch dimensions
+\* (broadcast like matmul) follow the acceptance rule of type_inference.rs (CCTyping!GemmType).
 MatmulPlan(s0in, s1in, tr0, tr1) ==
   LET p0 == Len(s0in) = 1
       p1 == Len(s1in) = 1
@@ -252,6 +254,8 @@ PlanRaw(rec, ats, ot) ==
     [] op = "ApplyPermutation" ->
          [p |-> "applyperm", inv |-> rec.inv, n |-> ats[1].sh[1], row |-> Prod(Tail(ats[1].sh))]
     [] op = "InversePermutation" -> [p |-> "invperm", n |-> NumEl(ats[1])]
+    \* SegmentCumSum (Graph::segment_cumsum): out[0] = first row, out[i] = A[i-1] + B[i-1] * out[i-1]
+    [] op = "SegmentCumSum" -> [p |-> "segcum", n |-> ats[1].sh[1], row |-> Prod(Tail(ats[1].sh))]
     [] OTHER -> Unsupported(op)
 
 \* plans are tables: force TLC to compute them eagerly (TLCEval), they are reused for every evaluation
@@ -260,7 +264,9 @@ Plan(rec, ats, ot) == TLCEval(PlanRaw(rec, ats, ot))
 ---------------------------------------------------------------------------
 (* Execution *)
 
-\* v / d rounded towards zero on the signed reading of residue v modulo m
+\* v / d rounded towards zero on the signed reading of residue v modulo m.
+\* Graph::truncate only says "divides ... by a positive constant"; the rounding of negative numbers
+\* (towards zero) is the evaluator's behaviour, taken as the definition (DESIGN.md C10).
 TruncSigned(v, d, m) ==
   LET s == IF v >= m \div 2 THEN v - m ELSE v
       q == IF s >= 0 THEN s \div d ELSE -((-s) \div d)
@@ -303,10 +309,32 @@ ExecGatherDyn(pl, x1, ix) ==
               u == (o - 1) \div (pl.row * pl.cnt)
           IN x1[(u * pl.dim + ix[c + 1]) * pl.row + r + 1]]
 
+\* Graph::apply_permutation does not document the direction; as in the evaluator, out[i] = a[p[i]]
+\* (a Gather along axis 0) and, with the inverse flag, out[p[i]] = a[i].
 ExecApplyPerm(pl, x1, pm) ==
   IF ~IsPermSeq(pm, pl.n) THEN "error"
   ELSE LET eff == IF pl.inv THEN InvPermSeq(pm, pl.n) ELSE pm
        IN [o \in 1..(pl.n * pl.row) |-> x1[eff[((o - 1) \div pl.row) + 1] * pl.row + ((o - 1) % pl.row) + 1]]
+
+\* acc = the first i rows of the result (flat), i >= 1
+RECURSIVE SegCumAcc(_, _, _, _, _, _)
+SegCumAcc(pl, aa, bb, acc, i, m) ==
+  IF i > pl.n THEN acc
+  ELSE SegCumAcc(pl, aa, bb,
+                 acc \o [c \in 1..pl.row |-> (aa[(i - 1) * pl.row + c] + bb[i] * acc[(i - 1) * pl.row + c]) % m],
+                 i + 1, m)
+
+\* Runtime errors: TLC cannot compare a sequence with the string "error", so whether Exec yields "error"
+\* is also available as a predicate (index out of range, invalid permutation, failed assertion).
+ExecErr(pl, args) ==
+  LET k == pl.p IN
+  CASE k = "vget" -> args[2][1] >= pl.n
+    [] k = "gatherdyn" -> \E i \in 1..Len(args[2]) : args[2][i] >= pl.dim
+    [] k = "applyperm" -> ~IsPermSeq(args[2], pl.n)
+    [] k = "invperm" -> ~IsPermSeq(args[1], pl.n)
+    \* only Assert has the plan "arg 2": the condition bit is argument 1
+    [] k = "arg" -> pl.i = 2 /\ args[1][1] = 0
+    [] OTHER -> FALSE
 
 ExecRaw(pl, args, ot) ==
   LET k == pl.p IN
@@ -330,6 +358,7 @@ ExecRaw(pl, args, ot) ==
     [] k = "gatherdyn" -> ExecGatherDyn(pl, args[1], args[2])
     [] k = "applyperm" -> ExecApplyPerm(pl, args[1], args[2])
     [] k = "invperm" -> IF IsPermSeq(args[1], pl.n) THEN InvPermSeq(args[1], pl.n) ELSE "error"
+    [] k = "segcum" -> SegCumAcc(pl, args[1], args[2], args[3], 1, Modulus(ot.st))
 
 \* TLCEval (= identity) makes TLC compute the value now; without it TLC keeps function
 \* constructors as closures and re-evaluates whole dependency chains at every element access.
